@@ -413,3 +413,135 @@ def run(chk):
     S = Summaries(prog)
     LA, results = _lock_rules(chk, prog, S)
     _guarded_rule(chk, prog, S, LA, results)
+
+
+# ------------------------------------------------------------------------------------------------
+# objects with static storage that are written after start-up, with reason
+GLOBALS_ALLOW = {
+    ("vm.c", "janet_vm"): "the VM state itself is thread-local (JANET_THREAD_LOCAL)",
+}
+
+
+def _globals_rule(chk, prog):
+    rule = "C08-GLOBALS"
+    chk.rule(rule, "no object with static storage that is shared by threads is written after its initialiser")
+    objs = []
+    for tu in prog.tus.values():
+        for g in tu.globals.values():
+            if not g["tls"] and not g.get("extern"):
+                objs.append((tu, g["n"], None, g["const"]))
+        for f in tu.funcs.values():
+            for n in f.nodes:
+                if n.k == "vardecl" and n.d.get("static") and not n.d.get("tls"):
+                    objs.append((tu, n.name, f, "const" in (n.t or "")))
+    if len(objs) < 30:
+        raise AnalysisBroken("only %d static objects found" % len(objs))
+    # writers: stores whose base is the object; calls passing it where the callee parameter is a non-const pointer
+    for tu, name, owner, is_const in objs:
+        chk.instance(rule)
+        hit = None
+        funcs = [owner] if owner is not None else list(tu.funcs.values())
+        for f in funcs:
+            for n in f.nodes:
+                if n.k in ("asg",) or (n.k == "un" and n.op in ("pre++", "post++", "pre--", "post--")):
+                    b = n.kids[0]
+                    while b.k in ("sub", "mem", "cast") or (b.k == "un" and b.op == "*"):
+                        b = b.kids[0]
+                    if b.k == "ref" and b.name == name and b.d.get("d") in ("gvar", "slocal"):
+                        hit = (f, n, "stored to")
+                if n.k == "call" and n.callee:
+                    d = prog.decls.get(n.callee)
+                    for i, a in enumerate(n.args):
+                        a2 = strip_casts(a)
+                        if a2.k == "un" and a2.op == "&":
+                            a2 = strip_casts(a2.kids[0])
+                        if a2.k == "ref" and a2.name == name and a2.d.get("d") in ("gvar", "slocal"):
+                            pt = d["params"][i]["t"] if d and i < len(d.get("params", [])) else ""
+                            if "*" in pt and "const" not in pt:
+                                hit = (f, n, "passed as a writable buffer to %s" % n.callee)
+        if hit and (tu.name, name) not in GLOBALS_ALLOW:
+            f, n, how = hit
+            chk.violation(rule, tu.name, f.name, name, n.loc,
+                          "`%s` has static storage shared by every thread and is %s here (`%s`): concurrent calls from two "
+                          "threads race on it" % (name, how, n.text()[:60]))
+        else:
+            chk.ok(rule, "%s:%s%s is never written after initialisation" % (tu.name, name, " (const)" if is_const else ""))
+
+
+def _atomic_rule(chk, prog):
+    rule = "C08-ATOMIC"
+    chk.rule(rule, "cross-thread counters are modified only through janet_atomic_inc/dec (plain stores only before publication)")
+    counters = (("JanetVM", "listener_count"), ("JanetVM", "auto_suspend"), ("JanetGCObject", "refcount"), ("anon", "refcount"))
+    n = 0
+    for fn in prog.all_funcs():
+        for x in fn.nodes:
+            tgt = None
+            if x.k == "asg":
+                tgt = x.kids[0]
+            elif x.k == "un" and x.op in ("pre++", "post++", "pre--", "post--"):
+                tgt = x.kids[0]
+            if tgt is None or tgt.k != "mem" or tgt.field not in ("listener_count", "auto_suspend", "refcount"):
+                continue
+            n += 1
+            chk.instance(rule)
+            plain_init = x.k == "asg" and x.op == "=" and strip_casts(x.kids[1]).v in (0, 1)
+            ctor = fn.name in ("janet_init", "janet_abstract_begin_threaded", "janet_ev_init_common", "janet_interpreter_interrupt_handled",
+                               "janet_interpreter_interrupt", "janet_ev_init", "janet_deinit")
+            if plain_init and ctor:
+                chk.ok(rule, "%s: %s (before publication)" % (fn.name, x.text()))
+            else:
+                chk.violation(rule, fn.tu.name, fn.name, tgt.field, x.loc,
+                              "`%s` modifies the cross-thread counter %s with a plain %s: increments and decrements from two threads "
+                              "are lost" % (x.text()[:50], tgt.field, "store" if x.k == "asg" else "++/--"))
+    atom = 0
+    for fn in prog.all_funcs():
+        for c in fn.calls("janet_atomic_inc", "janet_atomic_dec"):
+            atom += 1
+    chk.instance(rule)
+    if atom >= 6:
+        chk.ok(rule, "%d modifications go through janet_atomic_inc/dec" % atom)
+    else:
+        raise AnalysisBroken("only %d janet_atomic_inc/dec sites found" % atom)
+
+
+def _refpair_rule(chk, prog):
+    rule = "C08-REFPAIR"
+    chk.rule(rule, "a threaded abstract gains one reference when written into a message and the reader keeps or drops exactly one")
+    w = prog.need_func("marshal_one_abstract", "marsh.c")
+    r = prog.need_func("unmarshal_one", "marsh.c")
+    chk.analysed(w)
+    chk.analysed(r)
+    chk.instance(rule)
+    inc = w.calls("janet_abstract_incref")
+    if inc:
+        chk.ok(rule, "marshal_one_abstract takes a reference for the message")
+    else:
+        chk.violation(rule, "marsh.c", w.name, "incref", w.loc, "a threaded abstract is written into a message without taking a reference: the sender may free it first")
+    # reader: inside case LB_THREADED_ABSTRACT every path either stores into threaded_abstracts (keeps) or decrefs
+    from jv.util import enclosing_cases
+    arm = [n for n in r.nodes if "LB_THREADED_ABSTRACT" in enclosing_cases(n)]
+    if not arm:
+        raise AnalysisBroken("unmarshal_one: no LB_THREADED_ABSTRACT arm")
+    keeps = [n for n in arm if n.k == "call" and n.callee == "janet_table_put" and any(is_mem(x, "threaded_abstracts", "JanetVM") for x in n.walk())]
+    drops = [n for n in arm if n.k == "call" and n.callee == "janet_abstract_decref"]
+    chk.instance(rule)
+    if keeps and drops:
+        chk.ok(rule, "unmarshal: first sight keeps the message's reference (threaded_abstracts), repeats and DECREF clean-up drop it")
+    else:
+        chk.violation(rule, "marsh.c", r.name, "keep-or-drop", arm[0].loc,
+                      "the LB_THREADED_ABSTRACT arm no longer %s: the reference taken by the sender is %s" % (
+                          "drops the extra reference" if keeps else "records the abstract in threaded_abstracts",
+                          "leaked" if keeps else "never owned by this thread"))
+
+
+_run_locks = run
+
+
+def run(chk):   # noqa
+    prog = Program.load("default")
+    S = Summaries(prog)
+    LA, results = _lock_rules(chk, prog, S)
+    _guarded_rule(chk, prog, S, LA, results)
+    _globals_rule(chk, prog)
+    _atomic_rule(chk, prog)
+    _refpair_rule(chk, prog)
